@@ -112,6 +112,7 @@ type fStore struct {
 	epoch    time.Time
 	watchers []*fWatcher
 	n        int
+	nUpd     int
 	seed     int
 }
 
@@ -175,6 +176,12 @@ func (k *fKV) Update(key string, value []byte, rev uint64, opts ...interface{}) 
 		s.fan(m)
 	}
 	l := s.lat()
+	s.nUpd++
+	if s.seed%3 == 1 && s.nUpd == 2 {
+		// one reply per run outlasts the library's own time-out for a refresh
+		// (max(H/2, 1 s)) and arrives afterwards: the abandoned call's late result
+		l = 1200 * time.Millisecond
+	}
 	s.mu.Unlock()
 	time.Sleep(l)
 	if err != nil {
@@ -371,7 +378,7 @@ func runRaceProgram(t *testing.T, p raceProgram) {
 			}
 		}()
 		wg.Wait()
-		time.Sleep(900 * time.Millisecond)
+		time.Sleep(1700 * time.Millisecond) // past the late reply and the refresh that follows it
 		a.Stop()
 		b.Stop()
 		cancel()
